@@ -5,5 +5,8 @@ import Cutadapt.Properties.C01
 #print axioms Cutadapt.C01.alignment_sound
 #print axioms Cutadapt.C01.matchTo_sound
 #print axioms Cutadapt.C01.noindel_is_hamming
+#print axioms Cutadapt.C01.alignment_min
+#print axioms Cutadapt.C01.errors_minimal
+#print axioms Cutadapt.C01.matchTo_errors_is_distance
 #print axioms Cutadapt.C01.exAdapter_wf
 #print axioms Cutadapt.C01.noindel_needs_rate_le_one
